@@ -183,6 +183,9 @@ func implies(a, b bool) bool { return !a || b }
 func OpaqueDec(s string) int {
 	n := 0
 	for i := 0; i < len(s); i++ {
+		if n > (1<<62)/10 {
+			return 1 << 62 // saturates instead of wrapping: the prover's value is a mathematical integer
+		}
 		n = n*10 + int(s[i]-'0')
 	}
 	return n
